@@ -314,7 +314,13 @@ impl<F: Write + Seek> MiniAllocator<F> {
         // another regular sector to its chain.
         let new_start_sector =
             if mini_stream_start_sector == consts::END_OF_CHAIN {
-                debug_assert_eq!(mini_stream_len, 0);
+                if mini_stream_len != 0 {
+                    invalid_data!(
+                        "Mini stream has no sectors, but its length is {} \
+                         bytes",
+                        mini_stream_len
+                    );
+                }
                 self.directory.begin_chain(SectorInit::Zero)?
             } else {
                 // The mini stream's chain is never shrunk, so it may be
@@ -358,7 +364,10 @@ impl<F: Write + Seek> MiniAllocator<F> {
         let mut mini_stream_len = self.directory.root_dir_entry().stream_len;
         debug_assert_eq!(mini_stream_len % consts::MINI_SECTOR_LEN as u64, 0);
         while self.minifat.last() == Some(&consts::FREE_SECTOR) {
-            mini_stream_len -= consts::MINI_SECTOR_LEN as u64;
+            // (The mini stream of a damaged file can be shorter than its
+            // MiniFAT says.)
+            mini_stream_len =
+                mini_stream_len.saturating_sub(consts::MINI_SECTOR_LEN as u64);
             self.minifat.pop();
             // TODO: Truncate MiniFAT if last MiniFAT sector is now all free.
         }
@@ -407,7 +416,13 @@ impl<F: Write + Seek> MiniAllocator<F> {
             .directory
             .open_chain(self.minifat_start_sector, SectorInit::Fat)?;
         let offset = (index as u64) * size_of::<u32>() as u64;
-        debug_assert!(chain.len() >= offset + size_of::<u32>() as u64);
+        if chain.len() < offset + size_of::<u32>() as u64 {
+            malformed!(
+                "MiniFAT chain of {} bytes has no room for entry {}",
+                chain.len(),
+                index
+            );
+        }
         chain.seek(SeekFrom::Start(offset))?;
         chain.write_le_u32(value)?;
         if (index as usize) == self.minifat.len() {
